@@ -124,6 +124,13 @@ Proof.
   intros cur input e v r H Hv Hr f Hf. destruct f as [|f]; [lia|]. cbn [invoke]. rewrite H, Hv. cbn [ebind]. exact Hr.
 Qed.
 
+Lemma Ev_valneg : forall cur input e v r,
+  first_match rules input = Some (BValNeg, e) ->
+  env_tt Vv e = EOk v -> rust_neg_value v = r -> Ev cur input r 1.
+Proof.
+  intros cur input e v r H Hv Hr f Hf. destruct f as [|f]; [lia|]. cbn [invoke]. rewrite H, Hv. cbn [ebind]. exact Hr.
+Qed.
+
 (* the fuel the model gives itself is enough whenever some n below it is *)
 Lemma Ev_macro_eval : forall ts r n, ts <> [] ->
   Ev (MTab []) (state_toks id_toplevel ++ [TIdent id_root; TGroup DBracket []] ++ ts) r n ->
